@@ -68,11 +68,29 @@ WalkList(v) == Finite /\ Body # "yieldsnil" /\ Defined(v) /\ UNCHANGED <<its, x,
                  ELSE Log("list", v, <<"list", [k \in 1..Len(Rest(its[Var(v)])) |-> 10 * Rest(its[Var(v)])[k]]>>)
 WalkRed(v) == Finite /\ Body # "yieldsnil" /\ Defined(v) /\ UNCHANGED <<its, x, y>>
               /\ IF WalkRaises(its[Var(v)]) THEN Log("reduce", v, <<"err">>) ELSE Log("reduce", v, <<"val", 100 + Sum(Rest(its[Var(v)]))>>)
+(* a list chain over v whose function asks the OTHER variable for its next value: `v@{|e| [e, w.next]}`.  The walk runs on a copy of v, *)
+(* every visited element advances w for real; when w stops first, its StopIterErr is handed on (the chain does not end quietly)        *)
+NextOf(t) == IF Guard(t[1], t[2]) /\ ErrAt(t[1]) THEN [k |-> "err", v |-> 0, t |-> t]
+             ELSE IF Guard(t[1], t[2]) THEN [k |-> "val", v |-> Yield(t[1], t[2]), t |-> Recur(t[1], t[2])]
+             ELSE [k |-> "stop", v |-> 0, t |-> IF EagerRecur THEN Recur(t[1], t[2]) ELSE t]
+RECURSIVE Zip(_, _, _)
+Zip(s, t, acc) == LET n == NextOf(s) IN
+                  IF n.k = "stop" THEN [k |-> "list", acc |-> acc, t |-> t]
+                  ELSE IF n.k = "err" THEN [k |-> "err", acc |-> <<>>, t |-> t]
+                  ELSE LET m == NextOf(t) IN
+                       IF m.k = "val" THEN Zip(n.t, m.t, acc \o <<n.v, m.v>>)
+                       ELSE [k |-> m.k, acc |-> <<>>, t |-> m.t]
+Other(v) == IF v = "x" THEN "y" ELSE "x"
+WalkZip(v) == /\ Finite /\ Defined(v) /\ Defined(Other(v))
+              /\ LET z == Zip(its[Var(v)], its[Var(Other(v))], <<>>) IN
+                 /\ its' = [its EXCEPT ![Var(Other(v))] = z.t]
+                 /\ Log("zip", v, IF z.k = "list" THEN <<"list", z.acc>> ELSE <<z.k>>)
+              /\ UNCHANGED <<x, y>>
 NewY(n)    == its' = Append(its, Start(n)) /\ y' = Len(its) + 1 /\ Log("new", "y", <<"n", n>>) /\ UNCHANGED x
 NewFromX   == its' = Append(its, Start(1)) /\ y' = Len(its) + 1 /\ Log("newfrom", "y", <<"n", 1>>) /\ UNCHANGED x   \* y := x.new(1)
 CopyX      == its' = Append(its, its[x]) /\ y' = Len(its) + 1 /\ Log("copy", "y", <<"n", 0>>) /\ UNCHANGED x        \* y := x._iter
 AliasX     == y' = x /\ Log("alias", "y", <<"n", 0>>) /\ UNCHANGED <<its, x>>                                        \* y := x
-Step == \/ \E v \in {"x", "y"} : Next_(v) \/ WalkA(v) \/ WalkList(v) \/ WalkRed(v)
+Step == \/ \E v \in {"x", "y"} : Next_(v) \/ WalkA(v) \/ WalkList(v) \/ WalkRed(v) \/ WalkZip(v)
         \/ NewY(2) \/ NewFromX \/ CopyX \/ AliasX
 Next == Len(log) < MaxOps /\ Step
 Spec == Init /\ [][Next]_vars
@@ -80,7 +98,8 @@ Spec == Init /\ [][Next]_vars
 (* ---- properties ------------------------------------------------------------ *)
 (* a next on one iterator never changes another one *)
 OnlyTargetMoves == [][\A j \in 1..Len(its) : its'[j] # its[j] =>
-                        (Len(log') > Len(log) /\ log'[Len(log')].op = "next" /\ j = Var(log'[Len(log')].v))]_vars
+                        (Len(log') > Len(log) /\ ((log'[Len(log')].op = "next" /\ j = Var(log'[Len(log')].v))
+                                               \/ (log'[Len(log')].op = "zip" /\ j = Var(Other(log'[Len(log')].v)))))]_vars
 (* walks do not advance anything *)
 WalksArePure == [][(Len(log') > Len(log) /\ log'[Len(log')].op \in {"A", "list", "reduce"}) => its' = its]_vars
 (* a stopped iterator stays stopped *)
